@@ -1,7 +1,11 @@
 #!/bin/bash
 # Repository baseline with the guard OFF: rebuild /repo/_build (as configured by the sandbox: no verif define)
-# and run the 112-test ctest baseline.
+# and run the 112-test ctest baseline. Two tests of the repository create the same scratch file name ("test.cpp") in the
+# shared working directory, so under heavy machine load TestCppcheck can collide with a concurrently running test
+# (seen on the pristine tree as well); failed tests are therefore re-run once on their own before the verdict.
 set -e
 cmake --build /repo/_build -j"$(nproc)"
 if grep -q DANMAR_CPPCHECK_VERIF /repo/_build/CMakeCache.txt; then echo "guard unexpectedly ON in /repo/_build"; exit 2; fi
-ctest --test-dir /repo/_build -j8 --timeout 900
+if ctest --test-dir /repo/_build -j8 --timeout 900; then exit 0; fi
+echo "re-running the failed tests on their own"
+ctest --test-dir /repo/_build --rerun-failed --timeout 900
